@@ -2,6 +2,7 @@
 import ast
 import re
 from ..core import AnalysisError, norm, dotted, call_name, walk_no_nested, Folder, TOP, const_num
+from ..formula import check_formula, compare
 from ..intervals import constraints, negate_last, Interval, fold_num
 from .c14 import region_walk, _factors
 
@@ -222,8 +223,12 @@ def rule_guard(run):
               'tsat range test is %s' % (norm(v) if v is not None else None), where=ts.where())
     # tsat really inverts sat: f(t) = sat(t) - p handed to the root finder
     txt = norm(ts.node)
-    run.check('return sat(t) - p' in txt and 'fsolve(f, t0)' in txt, 't2thermo.tsat :: root of sat(t) - p',
-              'tsat does not solve sat(t) - p = 0', where=ts.where())
+    fnest = run.prog.nested(ts, 'f', required=False)
+    if fnest is None or 'fsolve(f, t0)' not in txt:
+        run.unknown('t2thermo.tsat :: root of sat(t) - p', 'root-finding idiom not recognised', where=ts.where())
+    else:
+        from ..formula import check_return
+        check_return(run, 't2thermo.tsat :: root of sat(t) - p', fnest, 'sat(t) - p', 'tsat does not solve sat(t) - p = 0')
 
 
 def rule_sibconst(run):
@@ -246,7 +251,12 @@ def rule_sibconst(run):
               where='t2thermo.py (region)')
     # Tc1_C = Tc1 - tc_k ; literals 647.3 and 273.15 and 2.212e7 used inline must equal Tc1, tc_k, Pc1
     v, _ = prog.resolve_global(MOD, 'Tc1_C')
-    run.check(isinstance(v, ast.AST) and norm(v) == 'Tc1 - tc_k', 't2thermo.Tc1_C :: Tc1 - tc_k', 'Tc1_C is %s' % (norm(v) if isinstance(v, ast.AST) else v), where='t2thermo.py')
+    if isinstance(v, ast.AST):
+        r = compare(v, 'Tc1 - tc_k')
+        kk = 't2thermo.Tc1_C :: Tc1 - tc_k'
+        if r == 'equal': run.ok(kk)
+        elif r == 'different': run.violated(kk, 'Tc1_C is `%s`, not Tc1 - tc_k' % norm(v), where='t2thermo.py')
+        else: run.unknown(kk, 'Tc1_C is `%s`' % norm(v), where='t2thermo.py')
     Tc1 = fold_num(prog, MOD, ast.Name(id='Tc1', ctx=ast.Load()))
     tck = fold_num(prog, MOD, ast.Name(id='tc_k', ctx=ast.Load()))
     Pc1 = fold_num(prog, MOD, ast.Name(id='Pc1', ctx=ast.Load()))
